@@ -348,8 +348,10 @@ func H05() {
 	msgv := getMesgAllInvalid(gmn)
 	var sets []vSet
 	var second reflect.Value
-	all := fi < 0
-	if all {
+	all := fi == -1
+	if fi == -2 {
+		// the message as its constructor returns it: present, nothing set
+	} else if all {
 		for i := 0; i < msgv.NumField(); i++ {
 			sets = append(sets, vSetField(msgv, gmn, i, false))
 		}
